@@ -224,6 +224,19 @@ def corpus_histories(frames, legacy, dict2):
         if zn:
             hs.append(("j0;rp2;La:r", zb[0]["frame"] + zn[0]["frame"],
                        [dict(start=0, setup=["rp2"], state0="P2", frames=[zb[0], zn[0]], mode="stream", legacy=False, stable=False)], "prefix-frame+plain frame"))
+    # round 3 (21a1fb6): a single-call decompression in the middle of a streamed frame abandons that frame; no reset is needed
+    # before the next stream
+    if len(zn) >= 2:
+        a, b = zn[0], zn[1]
+        for cut in (3, max(4, len(a["frame"]) // 2), len(a["frame"]) - 1):
+            if 0 < cut < len(a["frame"]):
+                st2 = len(a["frame"]) + len(b["frame"])
+                hs.append(("j0;e%d;L2:r:%d;j%d;e%d;o%d;j%d;e%d;Lh:r" % (cut, cut, len(a["frame"]), st2, len(b["frame"]), st2, st2 + len(a["frame"])),
+                           a["frame"] + b["frame"] + a["frame"],
+                           [dict(start=0, setup=[], state0=None, frames=[a], mode="abort", legacy=False, stable=False, limit=cut),
+                            dict(start=len(a["frame"]), setup=[], state0=None, frames=[b], mode="oneshot", legacy=False, stable=False),
+                            dict(start=st2, setup=[], state0=None, frames=[a], mode="stream", legacy=False, stable=False)],
+                           "stream abandoned after %d bytes, single call, next stream without reset" % cut))
     for v, lf in legacy:
         f = dict(frame=lf, content=None, need=None, kind="legacy", desc="legacy-v0.%d" % v)
         for k in (1, 4, 5, 6):
